@@ -8,6 +8,7 @@ fn main() {
         "c02" => harness::d_verify::c02(&args),
         "c07" => harness::d_codec::c07(&args),
         "c01" => harness::d_sign::c01(&args),
+        "fgseeds" => harness::d_keys::fgseeds(&args),
         "polyhelpers" => harness::d_poly::polyhelpers(&args),
         "replay-events" => harness::d_replay::replay_events(&args),
         "solve" => harness::d_solve::solve(&args),
